@@ -36,6 +36,8 @@ type Engine struct {
 	ghosts    map[string]GhostDecl
 	assumedUsed map[string]bool
 	frozenIDs   map[string]bool // printed literal of frozen global object ids
+	allocTypes  map[string]types.Type
+	allocArr    map[string]types.Type
 }
 
 func newEngine(repoDir string) (*Engine, error) {
@@ -75,13 +77,14 @@ func newEngine(repoDir string) (*Engine, error) {
 	prog, spkgs := ssautil.AllPackages(pkgs, ssa.GlobalDebug|ssa.BareInits)
 	prog.Build()
 	e.prog = prog
-	for _, sp := range spkgs {
+	_ = spkgs
+	for _, sp := range prog.AllPackages() {
 		if sp != nil {
 			e.spkgs[sp.Pkg.Path()] = sp
 		}
 	}
 	// contracts
-	e.contracts = &ContractSet{Funcs: map[string]*Contract{}, Preds: map[string]*PredDecl{}, Frozen: map[string]bool{}}
+	e.contracts = &ContractSet{Funcs: map[string]*Contract{}, Preds: map[string]*PredDecl{}, Frozen: map[string]bool{}, IfacePure: map[string]bool{}}
 	for _, p := range pkgs {
 		for i, f := range p.Syntax {
 			name := p.CompiledGoFiles[i]
@@ -123,6 +126,7 @@ func newEngine(repoDir string) (*Engine, error) {
 			c.Bound = true
 		}
 	}
+	e.collectAllocTypes()
 	e.frozenIDs = map[string]bool{}
 	for g, id := range e.globalIDs {
 		if g.Pkg != nil && e.contracts.Frozen[contractKey(g.Pkg.Pkg.Path(), g.Name())] {
